@@ -1010,10 +1010,12 @@ func splitInlineBox(context *layoutContext, box_ Box, positionX, maxX, bottomSpa
 				inFlowChildren = append(inFlowChildren, child.box)
 			}
 		}
-		posX := inFlowChildren[0].Box().PositionX
-		for _, child := range reversedBoxes(inFlowChildren) {
-			child.Translate(child, (posX - child.Box().PositionX), 0, true)
-			posX += child.Box().MarginWidth()
+		if len(inFlowChildren) != 0 { // all the children may be out of flow (absolutely positioned, ...)
+			posX := inFlowChildren[0].Box().PositionX
+			for _, child := range reversedBoxes(inFlowChildren) {
+				child.Translate(child, (posX - child.Box().PositionX), 0, true)
+				posX += child.Box().MarginWidth()
+			}
 		}
 	}
 
